@@ -836,19 +836,51 @@ Qed.
 
 (** * The order of import lines *)
 
-Lemma file_perm_sym f f' : file_perm f f' -> file_perm f' f.
-Proof. intros [H1 H2]; split; [symmetry; exact H1 | apply Permutation_sym; exact H2]. Qed.
+Lemma imp_equiv_refl i : imp_equiv i i.
+Proof. split; [reflexivity|]. destruct (itargets i); [exact I | apply Permutation_refl]. Qed.
 
-Lemma store_perm_sym st st' : store_perm st st' -> store_perm st' st.
+Lemma imp_equiv_sym i i' : imp_equiv i i' -> imp_equiv i' i.
 Proof.
-  induction 1 as [|a b l l' [Hk Hf] _ IH]; constructor; auto.
-  split; [symmetry; exact Hk | apply file_perm_sym; exact Hf].
+  intros [Hp Ht]. split; [symmetry; exact Hp|].
+  destruct (itargets i), (itargets i'); try exact Ht. apply Permutation_sym; exact Ht.
 Qed.
 
-Lemma lookup_perm st st' k :
-  store_perm st st' ->
+Lemma imps_equiv_sym l l' : imps_equiv l l' -> imps_equiv l' l.
+Proof.
+  intros [H1 H2]. split.
+  - intros i Hi. destruct (H2 i Hi) as (j & Hj & He). exists j. split; [exact Hj | apply imp_equiv_sym; exact He].
+  - intros i Hi. destruct (H1 i Hi) as (j & Hj & He). exists j. split; [exact Hj | apply imp_equiv_sym; exact He].
+Qed.
+
+Lemma file_equiv_sym f f' : file_equiv f f' -> file_equiv f' f.
+Proof. intros [H1 H2]; split; [symmetry; exact H1 | apply imps_equiv_sym; exact H2]. Qed.
+
+Lemma store_equiv_sym st st' : store_equiv st st' -> store_equiv st' st.
+Proof.
+  induction 1 as [|a b l l' [Hk Hf] _ IH]; constructor; auto.
+  split; [symmetry; exact Hk | apply file_equiv_sym; exact Hf].
+Qed.
+
+Lemma perm_imps_equiv l l' : Permutation l l' -> imps_equiv l l'.
+Proof.
+  intros Hp. split; intros i Hi; exists i; (split; [|apply imp_equiv_refl]).
+  - eapply Permutation_in; eauto.
+  - eapply Permutation_in; [apply Permutation_sym|]; eauto.
+Qed.
+
+Lemma file_perm_equiv f f' : file_perm f f' -> file_equiv f f'.
+Proof. intros [H1 H2]; split; [exact H1 | apply perm_imps_equiv; exact H2]. Qed.
+
+Lemma store_perm_equiv st st' : store_perm st st' -> store_equiv st st'.
+Proof.
+  induction 1 as [|a b l l' [Hk Hf] _ IH]; constructor; auto.
+  split; [exact Hk | apply file_perm_equiv; exact Hf].
+Qed.
+
+Lemma lookup_equiv st st' k :
+  store_equiv st st' ->
   match lookup st k with
-  | Some f => exists f', lookup st' k = Some f' /\ file_perm f f'
+  | Some f => exists f', lookup st' k = Some f' /\ file_equiv f f'
   | None => lookup st' k = None
   end.
 Proof.
@@ -856,103 +888,170 @@ Proof.
   cbn in Hk, Hf. subst k2. destruct (key_eqb k1 k); [exists f2; auto | exact IH].
 Qed.
 
-Lemma wanted_ext f f' i : fdefs f = fdefs f' -> wanted f i = wanted f' i.
-Proof. intros H; unfold wanted; rewrite H; reflexivity. Qed.
-Lemma missing_ext f f' i : fdefs f = fdefs f' -> missing_names f i = missing_names f' i.
-Proof. intros H; unfold missing_names; rewrite H; reflexivity. Qed.
+Lemma import_key_equiv doc i i' : imp_equiv i i' -> import_key doc i = import_key doc i'.
+Proof. intros [Hp _]. unfold import_key. rewrite Hp. reflexivity. Qed.
 
-Lemma RL_perm st st' doc imps imps' k i :
-  store_perm st st' -> Permutation imps imps' -> RL st doc imps k i -> RL st' doc imps' k i.
+Lemma existsb_perm {A} (p : A -> bool) l l' : Permutation l l' -> existsb p l = existsb p l'.
 Proof.
-  intros Hs Hp H; induction H as [i Hi | k i f j _ IH Hl Hj].
-  - apply RL_root. eapply Permutation_in; eauto.
-  - pose proof (lookup_perm st st' k Hs) as Hlp. rewrite Hl in Hlp. destruct Hlp as (f' & Hl' & _ & Hpf).
-    eapply RL_step; [exact IH | exact Hl' | eapply Permutation_in; eauto].
+  induction 1 as [|x l l' _ IH|x y l|l l' l'' _ IH1 _ IH2]; cbn.
+  - reflexivity.
+  - rewrite IH; reflexivity.
+  - destruct (p x), (p y); reflexivity.
+  - congruence.
 Qed.
 
-Section Perm.
+Lemma existsb_fst {A B} (p : A -> bool) (l : list (A * B)) :
+  existsb (fun t => p (fst t)) l = existsb p (map fst l).
+Proof. induction l as [|a l IH]; cbn; [reflexivity | rewrite IH; reflexivity]. Qed.
+
+Lemma wanted_equiv f f' i i' : fdefs f = fdefs f' -> imp_equiv i i' -> wanted f i = wanted f' i'.
+Proof.
+  intros Hd [_ Ht]. unfold wanted. rewrite <- Hd.
+  destruct (itargets i) as [|a], (itargets i') as [|b]; try contradiction; [reflexivity|].
+  apply filter_ext. intros d.
+  rewrite (existsb_fst (fun n => is_frag_named n d) a), (existsb_fst (fun n => is_frag_named n d) b).
+  apply existsb_perm; exact Ht.
+Qed.
+
+Lemma missing_nil_names f i :
+  missing_names f i = [] <->
+  forall n, In n (target_names i) -> existsb (is_frag_named n) (fdefs f) = true.
+Proof.
+  unfold target_names. destruct (itargets i) as [|ts] eqn:Ht.
+  - unfold missing_names; rewrite Ht. split; [intros _ n [] | reflexivity].
+  - rewrite (missing_nil_iff f i ts Ht). split.
+    + intros H n Hn. apply in_map_iff in Hn. destruct Hn as (t & <- & Hin). apply H; exact Hin.
+    + intros H t Hin. apply H. apply in_map; exact Hin.
+Qed.
+
+Lemma target_names_equiv i i' : imp_equiv i i' -> Permutation (target_names i) (target_names i').
+Proof.
+  intros [_ Ht]. unfold target_names.
+  destruct (itargets i), (itargets i'); try contradiction; [constructor | exact Ht].
+Qed.
+
+Lemma missing_equiv f f' i i' :
+  fdefs f = fdefs f' -> imp_equiv i i' -> (missing_names f i = [] <-> missing_names f' i' = []).
+Proof.
+  intros Hd He. rewrite !missing_nil_names, <- Hd. pose proof (target_names_equiv i i' He) as Hp.
+  split; intros H n Hn; apply H.
+  - eapply Permutation_in; [apply Permutation_sym; exact Hp | exact Hn].
+  - eapply Permutation_in; [exact Hp | exact Hn].
+Qed.
+
+Lemma RL_equiv st st' doc imps imps' k i :
+  store_equiv st st' -> imps_equiv imps imps' -> RL st doc imps k i ->
+  exists i', imp_equiv i i' /\ RL st' doc imps' k i'.
+Proof.
+  intros Hs Hp H; induction H as [i Hi | k i f j _ IH Hl Hj].
+  - destruct (proj1 Hp i Hi) as (i' & Hi' & He). exists i'. split; [exact He|].
+    rewrite (import_key_equiv doc i i' He). apply RL_root; exact Hi'.
+  - destruct IH as (i' & _ & Hr').
+    pose proof (lookup_equiv st st' k Hs) as Hlp. rewrite Hl in Hlp. destruct Hlp as (f' & Hl' & _ & Hpf).
+    destruct (proj1 Hpf j Hj) as (j' & Hj' & He). exists j'. split; [exact He|].
+    rewrite (import_key_equiv k j j' He). eapply RL_step; eauto.
+Qed.
+
+Section Equiv.
   Variables st st' : store.
   Variable root_path : key.
   Variables root root' : file.
-  Hypothesis Hst : store_perm st st'.
-  Hypothesis Hroot : file_perm root root'.
+  Hypothesis Hst : store_equiv st st'.
+  Hypothesis Hroot : file_equiv root root'.
 
-  Let Hst' := store_perm_sym _ _ Hst.
+  Let Hst' := store_equiv_sym _ _ Hst.
   Let Hp := proj2 Hroot.
-  Let Hp' := Permutation_sym (proj2 Hroot).
+  Let Hp' := imps_equiv_sym _ _ (proj2 Hroot).
 
-  (** a line reachable in the permuted store, read back in the original one *)
-  Lemma back k i f' :
-    RL st' root_path (fimports root') k i -> lookup st' k = Some f' ->
-    RL st root_path (fimports root) k i /\ exists f, lookup st k = Some f /\ fdefs f = fdefs f'.
+  (** a line reachable in the second store, read back in the first *)
+  Lemma back k i' f' :
+    RL st' root_path (fimports root') k i' -> lookup st' k = Some f' ->
+    exists i f, imp_equiv i i' /\ RL st root_path (fimports root) k i
+                /\ lookup st k = Some f /\ fdefs f = fdefs f'.
   Proof.
-    intros Hr Hl. split; [eapply RL_perm; eauto|].
-    pose proof (lookup_perm st' st k Hst') as H. rewrite Hl in H. destruct H as (f & Hl0 & Hd & _).
-    exists f. split; [exact Hl0 | symmetry; exact Hd].
+    intros Hr Hl. destruct (RL_equiv st' st root_path _ _ k i' Hst' Hp' Hr) as (i & He & Hr0).
+    pose proof (lookup_equiv st' st k Hst') as H. rewrite Hl in H. destruct H as (f & Hl0 & Hd & _).
+    exists i, f. split; [apply imp_equiv_sym; exact He|]. split; [exact Hr0|]. split; [exact Hl0 | symmetry; exact Hd].
   Qed.
 
-  Lemma Closure_perm d : Closure st root_path root d -> Closure st' root_path root' d.
+  Lemma Closure_equiv d : Closure st root_path root d -> Closure st' root_path root' d.
   Proof.
     intros [Hd|(k & i & f & Hr & Hl & Hd)].
     - left. rewrite <- (proj1 Hroot). exact Hd.
-    - right. pose proof (lookup_perm st st' k Hst) as H. rewrite Hl in H.
-      destruct H as (f' & Hl' & Hdf & _). exists k, i, f'.
-      split; [eapply RL_perm; eauto|]. split; [exact Hl'|].
-      rewrite <- (wanted_ext f f' i Hdf). exact Hd.
+    - right. pose proof (lookup_equiv st st' k Hst) as H. rewrite Hl in H.
+      destruct H as (f' & Hl' & Hdf & _).
+      destruct (RL_equiv st st' root_path _ _ k i Hst Hp Hr) as (i' & He & Hr').
+      exists k, i', f'. split; [exact Hr'|]. split; [exact Hl'|].
+      rewrite <- (wanted_equiv f f' i i' Hdf He). exact Hd.
   Qed.
 
-  Lemma BadLine_perm : BadLine st root_path (fimports root) -> BadLine st' root_path (fimports root').
+  Lemma BadLine_equiv : BadLine st root_path (fimports root) -> BadLine st' root_path (fimports root').
   Proof.
-    intros (k & i & Hr & Hb). exists k, i. split; [eapply RL_perm; eauto|].
-    pose proof (lookup_perm st st' k Hst) as H. destruct (lookup st k) as [f|].
-    - destruct H as (f' & Hl' & Hdf & _). rewrite Hl'. rewrite <- (missing_ext f f' i Hdf). exact Hb.
+    intros (k & i & Hr & Hb).
+    destruct (RL_equiv st st' root_path _ _ k i Hst Hp Hr) as (i' & He & Hr').
+    exists k, i'. split; [exact Hr'|].
+    pose proof (lookup_equiv st st' k Hst) as H. destruct (lookup st k) as [f|].
+    - destruct H as (f' & Hl' & Hdf & _). rewrite Hl'.
+      intros E. apply Hb. apply (missing_equiv f f' i i' Hdf He). exact E.
     - rewrite H. exact I.
   Qed.
 
-  Lemma AgreeP_perm : AgreeP st root_path root -> AgreeP st' root_path root'.
+  Lemma AgreeP_equiv : AgreeP st root_path root -> AgreeP st' root_path root'.
   Proof.
-    intros H k i1 i2 f' H1 H2 Hl.
-    destruct (back k i1 f' H1 Hl) as (H1' & f & Hl0 & Hd). destruct (back k i2 f' H2 Hl) as (H2' & _).
-    rewrite <- (wanted_ext f f' i1 Hd), <- (wanted_ext f f' i2 Hd). exact (H k i1 i2 f H1' H2' Hl0).
+    intros H k i1' i2' f' H1 H2 Hl.
+    destruct (back k i1' f' H1 Hl) as (i1 & f & He1 & H1' & Hl0 & Hd).
+    destruct (back k i2' f' H2 Hl) as (i2 & f2 & He2 & H2' & Hl2 & _).
+    assert (f2 = f) by congruence. subst f2.
+    rewrite <- (wanted_equiv f f' i1 i1' Hd He1), <- (wanted_equiv f f' i2 i2' Hd He2).
+    exact (H k i1 i2 f H1' H2' Hl0).
   Qed.
 
-  Lemma AgreeBadP_perm : AgreeBadP st root_path root -> AgreeBadP st' root_path root'.
+  Lemma AgreeBadP_equiv : AgreeBadP st root_path root -> AgreeBadP st' root_path root'.
   Proof.
-    intros H k i1 i2 f' H1 H2 Hl.
-    destruct (back k i1 f' H1 Hl) as (H1' & f & Hl0 & Hd). destruct (back k i2 f' H2 Hl) as (H2' & _).
-    rewrite <- (missing_ext f f' i1 Hd), <- (missing_ext f f' i2 Hd). exact (H k i1 i2 f H1' H2' Hl0).
+    intros H k i1' i2' f' H1 H2 Hl.
+    destruct (back k i1' f' H1 Hl) as (i1 & f & He1 & H1' & Hl0 & Hd).
+    destruct (back k i2' f' H2 Hl) as (i2 & f2 & He2 & H2' & Hl2 & _).
+    assert (f2 = f) by congruence. subst f2.
+    rewrite <- (missing_equiv f f' i1 i1' Hd He1), <- (missing_equiv f f' i2 i2' Hd He2).
+    exact (H k i1 i2 f H1' H2' Hl0).
   Qed.
 
-  Lemma RootSepP_perm : RootSepP st root_path root -> RootSepP st' root_path root'.
+  Lemma RootSepP_equiv : RootSepP st root_path root -> RootSepP st' root_path root'.
   Proof.
-    intros H k i f' Hr Hl d Hd. destruct (back k i f' Hr Hl) as (Hr' & f & Hl0 & Hdf).
-    rewrite <- (proj1 Hroot). rewrite <- (wanted_ext f f' i Hdf) in Hd. exact (H k i f Hr' Hl0 d Hd).
+    intros H k i' f' Hr Hl d Hd. destruct (back k i' f' Hr Hl) as (i & f & He & Hr' & Hl0 & Hdf).
+    rewrite <- (proj1 Hroot). rewrite <- (wanted_equiv f f' i i' Hdf He) in Hd. exact (H k i f Hr' Hl0 d Hd).
   Qed.
 
-  Lemma DistinctP_perm : DistinctP st root_path root -> DistinctP st' root_path root'.
+  Lemma DistinctP_equiv : DistinctP st root_path root -> DistinctP st' root_path root'.
   Proof.
     intros (Hr & Hf & Hd). split; [rewrite <- (proj1 Hroot); exact Hr|]. split.
-    - intros k i f' Hrl Hl. destruct (back k i f' Hrl Hl) as (Hr' & f & Hl0 & Hdf).
+    - intros k i' f' Hrl Hl. destruct (back k i' f' Hrl Hl) as (i & f & _ & Hr' & Hl0 & Hdf).
       rewrite <- Hdf. exact (Hf k i f Hr' Hl0).
-    - intros k1 i1 f1' k2 i2 f2' d H1 H2 Hne Hl1 Hl2 Hd1 Hd2.
-      destruct (back k1 i1 f1' H1 Hl1) as (H1' & f1 & Hl10 & Hdf1).
-      destruct (back k2 i2 f2' H2 Hl2) as (H2' & f2 & Hl20 & Hdf2).
+    - intros k1 i1' f1' k2 i2' f2' d H1 H2 Hne Hl1 Hl2 Hd1 Hd2.
+      destruct (back k1 i1' f1' H1 Hl1) as (i1 & f1 & _ & H1' & Hl10 & Hdf1).
+      destruct (back k2 i2' f2' H2 Hl2) as (i2 & f2 & _ & H2' & Hl20 & Hdf2).
       rewrite <- Hdf1 in Hd1. rewrite <- Hdf2 in Hd2.
       exact (Hd k1 i1 f1 k2 i2 f2 d H1' H2' Hne Hl10 Hl20 Hd1 Hd2).
   Qed.
 
-  Lemma FragNamesP_perm : FragNamesP st root_path root -> FragNamesP st' root_path root'.
+  Lemma FragNamesP_equiv : FragNamesP st root_path root -> FragNamesP st' root_path root'.
   Proof.
-    intros H k i f' Hr Hl. destruct (back k i f' Hr Hl) as (Hr' & f & Hl0 & Hdf).
+    intros H k i' f' Hr Hl. destruct (back k i' f' Hr Hl) as (i & f & _ & Hr' & Hl0 & Hdf).
     unfold frag_names. rewrite <- Hdf. exact (H k i f Hr' Hl0).
   Qed.
 
-  Lemma TargetNamesP_perm : TargetNamesP st root_path root -> TargetNamesP st' root_path root'.
-  Proof. intros H k i Hr. apply (H k i). eapply RL_perm; eauto. Qed.
-End Perm.
+  Lemma TargetNamesP_equiv : TargetNamesP st root_path root -> TargetNamesP st' root_path root'.
+  Proof.
+    intros H k i' Hr.
+    destruct (RL_equiv st' st root_path _ _ k i' Hst' Hp' Hr) as (i & He & Hr0).
+    eapply Permutation_NoDup; [apply Permutation_sym; apply (target_names_equiv i' i He) | exact (H k i Hr0)].
+  Qed.
+End Equiv.
 
-Theorem import_order_irrelevant st st' root_path root root' ks ds :
-  store_perm st st' -> file_perm root root' ->
+(** the general form: import lines may be reordered, repeated, and the names within a line
+    reordered, in the root and in every stored file *)
+Theorem import_lines_irrelevant st st' root_path root root' ks ds :
+  store_equiv st st' -> file_equiv root root' ->
   exact_guard_b st root_path root ks = true ->
   names_guard_b st ks (all_lines st root_path root ks) = true ->
   resolve_imports st root_path root = inr ds ->
@@ -969,21 +1068,31 @@ Proof.
   destruct (resolve_imports st' root_path root') as [e|ds'] eqn:H'.
   - exfalso. destruct (positioned e) eqn:Hpos.
     + apply imports_error_sound in H'. apply (justified_bad _ _ _ _ Hpos) in H'.
-      apply (BadLine_perm st' st root_path root' root (store_perm_sym _ _ Hst) (file_perm_sym _ _ Hroot)) in H'.
+      apply (BadLine_equiv st' st root_path root' root (store_equiv_sym _ _ Hst) (file_equiv_sym _ _ Hroot)) in H'.
       exact (imports_error_complete_P st root_path root HAB HF H' ds H).
     + destruct e; try discriminate.
       * exact (imports_no_panic_P st' root_path root'
-                 (TargetNamesP_perm st st' root_path root root' Hst Hroot HT) H').
+                 (TargetNamesP_equiv st st' root_path root root' Hst Hroot HT) H').
       * exact (imports_terminate st' root_path root' H').
   - exists ds'. split; [reflexivity|].
     destruct (imports_exact_P st' root_path root' ds'
-                (AgreeP_perm st st' root_path root root' Hst Hroot HA)
-                (RootSepP_perm st st' root_path root root' Hst Hroot HR)
-                (DistinctP_perm st st' root_path root root' Hst Hroot HD) H') as [Hset' Hnd'].
+                (AgreeP_equiv st st' root_path root root' Hst Hroot HA)
+                (RootSepP_equiv st st' root_path root root' Hst Hroot HR)
+                (DistinctP_equiv st st' root_path root root' Hst Hroot HD) H') as [Hset' Hnd'].
     split; [|exact Hnd'].
     intros d. rewrite Hset, Hset'. split.
-    + apply Closure_perm; assumption.
-    + apply Closure_perm; [apply store_perm_sym; assumption | apply file_perm_sym; assumption].
+    + apply Closure_equiv; assumption.
+    + apply Closure_equiv; [apply store_equiv_sym; assumption | apply file_equiv_sym; assumption].
+Qed.
+
+Theorem import_order_irrelevant st st' root_path root root' ks ds :
+  store_perm st st' -> file_perm root root' ->
+  exact_guard_b st root_path root ks = true ->
+  names_guard_b st ks (all_lines st root_path root ks) = true ->
+  resolve_imports st root_path root = inr ds ->
+  exists ds', resolve_imports st' root_path root' = inr ds' /\ (forall d, In d ds <-> In d ds') /\ NoDup ds'.
+Proof.
+  intros Hst Hroot. apply import_lines_irrelevant; [apply store_perm_equiv | apply file_perm_equiv]; assumption.
 Qed.
 
 (** * The breadth-first key set only contains reachable keys
